@@ -611,6 +611,30 @@ def t1_wiring(ctx: Ctx):
                 if isinstance(cd, ast.ClassDef):
                     has = any(isinstance(s, ast.FunctionDef) and s.name == attr for s in cd.body)
                     ctx.check(has, a[0], cd, c, f'{c}.{attr} is defined', f'{c} has no `{attr}`')
+                    # a listing is asked with the arguments the strategy is called with ("pass the same arguments the
+                    # rewrite will get"): every parameter the two share accepts, in the lister, what the strategy accepts
+                    lst = next((s for s in cd.body if isinstance(s, ast.FunctionDef) and s.name == attr), None)
+                    if lst is not None:
+                        def kinds(ann) -> set[str]:
+                            return {n.id for n in ast.walk(ann) if isinstance(n, ast.Name)} - {'None'} if ann is not None else set()
+                        sp = {p.arg: p.annotation for p in fn.args.args + fn.args.kwonlyargs}
+                        for p in lst.args.args + lst.args.kwonlyargs:
+                            if p.arg in ('func', 'within') or p.arg not in sp:
+                                continue
+                            missing = kinds(sp[p.arg]) - kinds(p.annotation)
+                            # what the rewrite itself does not take in that form has to be converted on the way in
+                            awe = next((s for s in cd.body if isinstance(s, ast.FunctionDef) and s.name == 'apply_with_edits'), None)
+                            native = kinds(next((x.annotation for x in (awe.args.args + awe.args.kwonlyargs) if x.arg == p.arg), None)) if awe is not None else set()
+                            helpers = [lst] + [g for q2, g in repo.functions(a[0]) if any(call_name(k) == q2 for k in calls_in(lst))]
+                            for kind in sorted(kinds(sp[p.arg]) - native - missing):
+                                conv = any(isinstance(s, ast.If) and norm(s.test) == f'isinstance({p.arg}, {kind})'
+                                           and any(isinstance(x, ast.Assign) and norm(x.targets[0]) == p.arg for x in s.body)
+                                           for g in helpers for s in ast.walk(g))
+                                ctx.check(conv, a[0], lst, f'{c}.{attr}', f'{c}.{attr}: a {kind} `{p.arg}` is converted to the form the rewrite works on',
+                                          f'`{strat}` turns its {kind} {p.arg} into a node before the rewrite sees it; the lister passes it on as it is')
+                            ctx.check(not missing, a[0], p, f'{c}.{attr}', f'{c}.{attr}({p.arg}=..) accepts what `{strat}` is called with',
+                                      f'`{strat}` takes {p.arg}: {norm(sp[p.arg]) if sp[p.arg] is not None else "?"}, the lister takes {norm(p.annotation) if p.annotation is not None else "?"}: '
+                                      f'called with the strategy\'s own argument it does not recognise it, and lists sites the rewrite then refuses')
     # every aimable strategy (one taking `where`) is listable, and only those
     init = repo.module('fpy2/strategies/__init__.py')
     aimable = set()
@@ -1486,6 +1510,10 @@ T = 'fpy2/transform/'
 FU, SL, WU, RI, FI = T + 'for_unroll.py', T + 'split_loop.py', T + 'while_unroll.py', T + 'round_insert.py', T + 'func_inline.py'
 
 MUTANTS = [
+    Mutant('split-listing-takes-nodes-only', 'fpy2/transform/split_loop.py', "    if isinstance(factor, int):\n        factor = Integer(factor, None)\n    elif isinstance(factor, str):\n        factor = Var(NamedId(factor), None)\n    return _SplitLoop(", "    return _SplitLoop(", 'C19.T1',
+           'finding F61 before its repair: sites(split, f, factor=3, strategy=STRICT) lists a loop the rewrite refuses'),
+    Mutant('split-listing-annotation-narrowed', 'fpy2/transform/split_loop.py', "        factor: Expr | int | str | None = None,\n        strategy: SplitLoopStrategy = SplitLoopStrategy.PEEL,\n    ) -> list[Cursor]:",
+           "        factor: Expr | None = None,\n        strategy: SplitLoopStrategy = SplitLoopStrategy.PEEL,\n    ) -> list[Cursor]:", 'C19.T1'),
     Mutant('for-iterable-hoist-loses-its-edit', RI, "    def _visit_for(self, stmt: ForStmt, ctx: Any):\n        return super()._visit_for(stmt, None)[0], ctx", "    def _visit_for(self, stmt: ForStmt, ctx: Any):\n        return super()._visit_for(stmt, ctx)[0], ctx", 'C19.P2',
            'seeded change C19b: a block inserted ahead of the loop with no edit recorded'),
     Mutant('with-header-hoist-loses-its-edit', RI, "    def _visit_context(self, stmt: ContextStmt, ctx: Any):\n        return super()._visit_context(stmt, None)[0], ctx", "    def _visit_context(self, stmt: ContextStmt, ctx: Any):\n        return super()._visit_context(stmt, ctx)[0], ctx", 'C19.P2'),
